@@ -429,3 +429,50 @@ def r_latebind(ctx, funcs, rule: str = 'R-LATEBIND') -> int:
             n += 1
             ctx.check(immediate, rule, fn, f'callable created per iteration captures the loop variable(s) {captured} late: every instance sees the last value (bind with a default argument)', node, key=f'latebind:{",".join(captured)}:{core.stmt_key(core.enclosing_stmt(node))}')
     return n
+
+
+# --------------------------------------------------------------------------------------------------
+# R-ARGNAME (general form of R-ARGORDER)
+# --------------------------------------------------------------------------------------------------
+def r_argname(ctx, resolver, funcs, rule: str = 'R-ARGNAME', only_params: typing.Optional[set[str]] = None) -> int:
+    """At a call with a statically resolved callee, a positional argument whose (trailing) identifier is the name of a
+    parameter of that callee must be bound to the parameter of that name - otherwise two same-typed values are crossed
+    (project/release, left/right, train/label, lower/upper ...)."""
+    n = 0
+    for fn in funcs:
+        for call in core.calls_in(fn.node, deep=False):
+            if len(call.args) < 2 and not call.keywords:
+                continue
+            if any(isinstance(a, ast.Starred) for a in call.args):
+                continue
+            callee = resolver.resolve(fn, call)
+            if callee is None or len(callee.params) < 2:
+                continue
+            params = set(callee.params)
+            bound = resolver.bind(callee, call)
+            for pname, arg in bound.items():
+                ident = _tail_ident(arg)
+                if ident is None or ident not in params or ident == pname:
+                    continue
+                if only_params is not None and not ({ident, pname} & only_params):
+                    continue
+                # the identifier names another parameter of the callee: crossed unless that parameter gets it as well
+                other = bound.get(ident)
+                if other is not None and _tail_ident(other) == ident:
+                    continue
+                n += 1
+                ctx.fail(rule, fn, f'argument `{core.src(arg)}` is bound to parameter `{pname}` of {callee.ref} although that callee has a parameter `{ident}` (crossed same-typed values)', call, callee=callee.ref)
+            if bound:
+                n += 1
+                ctx.ok(rule, fn, f'arguments of {callee.ref} bound to the parameters of their own names', call)
+    return n
+
+
+def argname_scope(ctx, prefixes: tuple[str, ...], floor: int = 3) -> None:
+    """Run R-ARGNAME over every function of the modules with the given prefixes (the modules a property anchors)."""
+    from .. import calls as callsmod
+
+    resolver = callsmod.Resolver(ctx.prog)
+    mods = [m for m in ctx.prog.modules if m.startswith(prefixes)]
+    n = r_argname(ctx, resolver, ctx.prog.functions(mods))
+    ctx.floor('R-ARGNAME', n, floor)
